@@ -38,6 +38,30 @@ type Prog struct {
 	Stmts []PStmt `json:"stmts"`
 }
 
+// RenameLabels gives labels other names everywhere they are defined or referred to.
+func (p *Prog) RenameLabels(m map[string]string) {
+	for i := range p.Stmts {
+		s := &p.Stmts[i]
+		if n, ok := m[s.Label]; ok {
+			s.Label = n
+		}
+		if s.K == "equ" {
+			if n, ok := m[s.Text]; ok {
+				s.Text = n
+			}
+		}
+		for j := range s.Items {
+			it := &s.Items[j]
+			if n, ok := m[it.Label]; ok {
+				if it.Text == it.Label {
+					it.Text = n
+				}
+				it.Label = n
+			}
+		}
+	}
+}
+
 // Source renders the canonical layout: labels flush left, everything else
 // after one tab, LF line ends.
 func (p *Prog) Source() string {
